@@ -415,6 +415,21 @@ def r05_5(prog, out):
         out.undecided("parser-signature", prog.loc(parser[0]), "batch parser does not take an id list and a seconds list")
         return
     zips = any(t.callee.path == "std::iter::Iterator::zip" for bb, t in prog.info(parser[0]).calls())
+    # inside the parser: the i-th id is paired with the i-th seconds value -- nothing drops or skips elements of one side
+    # before the zip (a `filter` / `dedup` on the ids shifts every later pair)
+    CUT = {"filter", "filter_map", "skip", "skip_while", "take", "take_while", "step_by", "dedup", "dedup_by_key", "retain", "rev", "chain", "flat_map",
+           "flatten", "map_while", "peekable_skip", "sort", "sort_unstable", "sort_by_key", "unique", "chunks", "windows"}
+    pi0 = prog.info(parser[0])
+    for zbb, zt in pi0.calls(lambda c: c.path == "std::iter::Iterator::zip"):
+        bad = set()
+        for a in zt.args[:2]:
+            bad |= {c.split("::")[-1] for c in sl.of(parser[0], a).calls} & CUT
+        key = "pairing:%s" % prog.short(parser[0])
+        if bad:
+            out.violation(key, pi0.loc(zbb), "one side of the id / seconds zip passes through %s first: elements are dropped or moved on that side only, so every later "
+                          "ack id is paired with another id's seconds (a nack lands on a message that was being extended)" % sorted(bad))
+        else:
+            out.holds(key, pi0.loc(zbb), "ids and seconds are zipped position by position")
     n = 0
     for bid, b in prog.facts.bodies.items():
         if b.crate != "lib":
